@@ -48,6 +48,7 @@ InferVerdict(exp, obs) ==
 EvVerdict(t, j) ==
   LET ev == t.evs[j] IN
   IF ev.op = "cfg" THEN "ok"
+  ELSE IF ev.symcalls > 0 THEN "predicate.ran-in-symbolic-mode"     \* user predicates always run concretely (C09)
   ELSE
   LET q == t.qs[ev.qi]
       W == t.W
